@@ -73,6 +73,8 @@ def stmt_text(s, v):
         return t + " }"
     if k == "namespace":
         return '@namespace nsp "http://ns/";'
+    if k == "unknown":
+        return "@layer reset, theme;"
     if k == "media":
         return "@media %s { %s }" % (s["media"], " ".join(stmt_text(x, v) for x in s["rules"]))
     raise ValueError(k)
@@ -112,6 +114,8 @@ def project_rules(rules):
             out.append({"k": "namespace", "sel": "@namespace", "urls": []})
         elif t in ("COMMENT", "CHARSET_RULE"):
             continue
+        elif t == "UNKNOWN_RULE":
+            out.append({"k": "unknown", "sel": r.atkeyword, "urls": []})
         else:
             out.append({"k": "other:" + t, "sel": "", "urls": []})
     return out
